@@ -22,11 +22,22 @@ func VF_C09_Local() {
 	for i := 0; i < pre; i++ {
 		_, _ = l.Insert(i, vfVals[i])
 	}
-	if vf.Choice("earlier-failed-tx", 2) == 1 {
+	switch vf.Choice("earlier-tx", 3) {
+	case 1: // an earlier failed transaction
 		_ = l.Transaction("t0", func(tx ListInTx) error {
 			_, _ = tx.Insert(0, "lost")
 			return errors.New("fail")
 		})
+	case 2: // an earlier committed transaction (its unit is replayed by a later rollback)
+		e := l.Transaction("t0", func(tx ListInTx) error {
+			_, _ = tx.Insert(0, "kept0")
+			_, _ = tx.Insert(tx.Size(), "kept1")
+			return nil
+		})
+		vf.Assert(e == nil, "C09 valid transaction succeeds")
+		if vf.Choice("op-after-earlier-tx", 2) == 1 {
+			_, _ = l.Insert(1, "mid")
+		}
 	}
 	// operations of another replica applied before the transaction (its clock is ahead)
 	remoteLamport := uint64(0)
